@@ -377,8 +377,8 @@ func run(c *hl.Ctx) {
 	os.Stdout = devnull
 	w := &recWriter{}
 	logger.Switch(closerWriter{w})
-	c.Rule("E1: every interleaving (within the reported preemption bound; -1 = unbounded) of N goroutines calling WithContext/AliasContext and logging, scheduling points at the split read and write of the shared id counter (R4) and at any lock (R1); sequential sweep of 10 log functions x 10 context kinds (incl. aliases onto a parent carrying another id) x 7 messages. A state = distinct observable outcome (relative ids per goroutine); transition = scheduling step or logging call." + historyRule)
-	c.Assume("accesses other than the instrumented counter/lock operations are judged by the separate free-running race-detector pass", "log lines are observed through a writer installed with logger.Switch", "the Info level is discarded by design: zero writes allowed for I/If",
+	c.Rule("E1: every interleaving (within the reported preemption bound; -1 = unbounded) of N goroutines calling WithContext/AliasContext and logging, scheduling points at the split read and write of the shared id counter (R4) and at any lock (R1); sequential sweep of 10 log functions x 10 context kinds (incl. aliases onto a parent carrying another id) x 7 messages; the 7 formatted variants x 3 context kinds x 13 (format, arguments) pairs, among them formats and arguments ending in a newline, %% and missing arguments (the message is what fmt.Sprintf makes of them; still exactly one line). A state = distinct observable outcome (relative ids per goroutine); transition = scheduling step or logging call." + historyRule)
+	c.Assume("accesses other than the instrumented counter/lock operations are judged by the separate free-running race-detector pass", "log lines are observed through a writer installed with logger.Switch", "the Info level is discarded by design: zero writes allowed for I/If", "messages that themselves contain a newline before their end span several lines by construction and are not judged; the plain variants with a message ending in a newline are not judged either (fmt.Sprintln semantics print an empty line after it)",
 		"history family: after logger.Close() and before the next Switch there is no current writer and lines are dropped (Close: 'discard any log util switch to fresh writer'); the value returned by Switch, which writer Close() closes, and the colour escapes sent to os.Stdout are not judged")
 	if c.Mode() == "race" {
 		racePass(c, w)
@@ -386,6 +386,7 @@ func run(c *hl.Ctx) {
 	}
 	if c.Shard == 0 {
 		sequential(c, w)
+		formatted(c, w)
 		// the colour path (writer that is not an io.Closer): still one write per call to the installed writer
 		w2 := &recWriter{}
 		logger.Switch(w2)
@@ -449,6 +450,7 @@ func replay(c *hl.Ctx, raw json.RawMessage) {
 	var rc mc.ReplayCase
 	if err := json.Unmarshal(raw, &rc); err != nil || rc.Scenario == "" {
 		sequential(c, w)
+		formatted(c, w)
 		return
 	}
 	for _, s := range scenarios(c, w) {
